@@ -127,7 +127,34 @@ def omMenu : Int → Option (List Char → Except PyExc Int)
   | _ => some (fun k => if k.length % 2 = 0 then .ok 7 else .error PyExc.KeyError)
 instance : Codec (Option (List Char → Except PyExc Int)) :=
   ⟨fun | x :: r => some (omMenu x, r) | [] => none, fun _ => []⟩
+def prioMenu : Int → Int → Except PyExc Int
+  | 0 => fun p => .ok (-p)
+  | 1 => fun p => .ok p
+  | 2 => fun _ => .error PyExc.ValueError
+  | _ => fun p => .ok (-(p / 2))
+instance : Codec (Int → Except PyExc Int) :=
+  ⟨fun | x :: r => some (prioMenu x, r) | [] => none, fun _ => []⟩
+-- the backend of HeapPriorityQueue: `heapq` (C10/Model.lean's transliteration) on a list of references, entries
+-- compared as Python compares the lists `[priority, count, task]` (the counts of a queue's entries differ)
+def cellKey (h : PyHeap.Heap (List Char) Int) : PyHeap.Val (List Char) Int → Int × Int
+  | .ref a => (match h.cell a with | [.int p, .int c, _] => (p, c) | _ => (0, 0))
+  | _ => (0, 0)
+def refLt (h : PyHeap.Heap (List Char) Int) (a b : PyHeap.Val (List Char) Int) : Bool :=
+  decide ((cellKey h a).1 < (cellKey h b).1) ||
+    (decide ((cellKey h a).1 = (cellKey h b).1) && decide ((cellKey h a).2 < (cellKey h b).2))
+instance : PyHeap.Backend (List Char) Int (List (PyHeap.Val (List Char) Int)) where
+  truthy l := !l.isEmpty
+  front l := match l with | x :: _ => .ok x | [] => .error PyExc.IndexError
+  push h l v := .ok (C10.heappush (refLt h) v l)
+  pop h l := match C10.heappop (refLt h) l with | some (x, l') => .ok (x, l') | none => .error PyExc.IndexError
 '''
+
+
+def _prio_valueerror(p):
+    raise ValueError(p)
+
+
+PRIO_MENU = [lambda p: -p, lambda p: p, _prio_valueerror, lambda p: -(p // 2)]
 
 
 def _om_keyerror(k):
@@ -148,7 +175,8 @@ OM_MENU = [None, lambda k: len(k) + 100, _om_keyerror, _om_valueerror, _om_mixed
 
 
 # ------------------------------------------------------------------ int-stream codec, Python side
-VAR_INST = {'κ': ('Str',)}     # dict keys are instantiated with strings (keyword names must be strings)
+VAR_INST = {'κ': ('Str',),     # dict keys are instantiated with strings (keyword names must be strings)
+            'β': ('List', ('Val',))}    # heap mode: the abstract backend is tested as a list of references
 
 
 def enc(t, v, out):
@@ -191,8 +219,10 @@ def enc(t, v, out):
             raise ValueError('tuple length')
         for tt, x in zip(t[1], v):
             enc(tt, x, out)
-    elif k == 'Option' and t[1] is not None and t[1][0] == 'Fun':
-        out.append(int(v))                  # a callable: its index in OM_MENU
+    elif (k == 'Option' and t[1] is not None and t[1][0] == 'Fun') or k == 'Fun':
+        out.append(int(v))                  # a callable: its index in OM_MENU / PRIO_MENU
+    elif k == 'Counter':
+        out.append(int(v))
     elif k == 'Option':
         if v is None:
             out.append(0)
@@ -251,8 +281,10 @@ def dec(t, toks, pos):
             x, pos = dec(tt, toks, pos)
             out.append(x)
         return tuple(out), pos
-    if k == 'Option' and t[1] is not None and t[1][0] == 'Fun':
+    if (k == 'Option' and t[1] is not None and t[1][0] == 'Fun') or k == 'Fun':
         return None, pos                    # callables are not encoded back
+    if k == 'Counter':
+        return toks[pos], pos + 1
     if k == 'Option':
         if toks[pos] == 0:
             return None, pos + 1
@@ -304,6 +336,8 @@ def lean_type(t):
         return '(PyHeap.Val (List Char) Int)'
     if k == 'Heap':
         return '(PyHeap.Heap (List Char) Int)'
+    if k == 'Counter':
+        return 'Int'
     if k == 'Fun':
         return '(%s → Except PyExc %s)' % (lean_type(t[1]), lean_type(t[2]))
     raise ValueError(t)
@@ -364,10 +398,14 @@ def _heap_slot(x, ids, sentinel, todo):
         return ('key', x)
     if isinstance(x, bool) or not isinstance(x, int):
         raise ValueError('unencodable object in the store: %r' % (x,))
-    return ('val', x)
+    return (_INT_TAG[0], x)
+
+
+_INT_TAG = ['val']      # how a Python int found in the store is tagged: a value object, or (spec `int_slots`) an int
 
 
 def heap_snapshot(cls, obj, sentinel, extra=()):
+    _INT_TAG[0] = 'int' if cls['heap'].get('int_slots') else 'val'
     """-> (snapshot, slots of the `extra` objects); roots: `extra`, then the Val-typed attributes in spec order"""
     ids, todo, cells = {}, [], []
     snap = {}
@@ -384,6 +422,14 @@ def heap_snapshot(cls, obj, sentinel, extra=()):
             snap[a] = {k: _heap_slot(v, ids, sentinel, todo) for k, v in getattr(obj, a).items()}
         elif t[0] == 'Option' and t[1] is not None and t[1][0] == 'Fun':
             snap[a] = OM_MENU.index(getattr(obj, a))
+        elif t[0] == 'Fun':
+            snap[a] = PRIO_MENU.index(getattr(obj, a))
+        elif t == ('Counter',):
+            import itertools
+            snap[a] = next(getattr(obj, a))             # peek: read the next value and put an equal counter back
+            setattr(obj, a, itertools.count(snap[a]))
+        elif t[0] == 'Var' and VAR_INST.get(t[1]) == ('List', ('Val',)):
+            snap[a] = [_heap_slot(x, ids, sentinel, todo) for x in getattr(obj, a)]
         else:
             snap[a] = getattr(obj, a)
     done = 0
@@ -422,6 +468,13 @@ def heap_build(cls, pycls, snap, sentinel):
             setattr(obj, a, {k: val(v) for k, v in snap[a].items()})
         elif t[0] == 'Option' and t[1] is not None and t[1][0] == 'Fun':
             setattr(obj, a, OM_MENU[snap[a]])
+        elif t[0] == 'Fun':
+            setattr(obj, a, PRIO_MENU[snap[a]])
+        elif t == ('Counter',):
+            import itertools
+            setattr(obj, a, itertools.count(snap[a]))
+        elif t[0] == 'Var' and VAR_INST.get(t[1]) == ('List', ('Val',)):
+            setattr(obj, a, [val(x) for x in snap[a]])
         else:
             setattr(obj, a, snap[a])
     for a in cls.get('ignore_with', ()):
@@ -436,6 +489,8 @@ def heap_canon(cls, snap, result):
     ids, order = {}, []
 
     def slot(x):
+        if x[0] == 'int':
+            return ('val', x[1])        # a Python int is a Python int: the two tags are not distinguished
         if x[0] != 'ref':
             return x
         if x[1] not in ids:
@@ -469,7 +524,7 @@ def call_heap_method(spec, fn, case):
     """a method of a heap-mode class on a fresh object isomorphic to the snapshot `case['self']`
     -> canonical (result | exception, state after)"""
     cls = spec['cls']
-    pycls = fn.__globals__[cls['name']]
+    pycls = fn.__globals__[cls.get('test_class', cls['name'])]
     sentinel = fn.__globals__[cls['sentinels'][0]] if cls.get('sentinels') else object()
     obj = heap_build(cls, pycls, case['self'], sentinel)
     pos = []
@@ -515,7 +570,7 @@ def heap_lean_result(spec, rtype, val):
         raise ValueError('trailing tokens in the Lean output')
     for a, tt in cls['state'].items():
         t = py2lean.parse_type(tt)
-        if t[0] == 'Option' and t[1] is not None and t[1][0] == 'Fun':
+        if (t[0] == 'Option' and t[1] is not None and t[1][0] == 'Fun') or t[0] == 'Fun':
             snap[a] = None
     return heap_canon(cls, snap, result)
 
@@ -924,7 +979,76 @@ def fam_lri(method, lru=False):
     return fam
 
 
+BPQ_TASKS = ['a', 'b', 'c', 'd', '']
+
+
+def _bpq_states(rng, quick):
+    """snapshots of HeapPriorityQueue objects: reachable ones (random histories on the real class) and corrupted ones
+    (a task missing from `_entry_map`, a live entry marked removed, a counter moved)"""
+    import importlib
+    mod = importlib.import_module('boltons.queueutils')
+    pycls = mod.HeapPriorityQueue
+    cls = srctie_specs.BPQ
+
+    def snap(o):
+        return heap_snapshot(cls, o, mod._REMOVED)[0]
+    for _ in range(12 if quick else 120):
+        o = pycls(priority_key=PRIO_MENU[rng.choice([0, 0, 0, 1, 3])])
+        yield snap(o)
+        for _ in range(rng.randint(1, 14)):
+            r = rng.random()
+            try:
+                if r < 0.55:
+                    o.add(rng.choice(BPQ_TASKS), rng.randint(-3, 6))
+                elif r < 0.75:
+                    o.remove(rng.choice(BPQ_TASKS))
+                elif r < 0.9:
+                    o.pop()
+                else:
+                    o.peek()
+            except (KeyError, IndexError):
+                pass
+            yield snap(o)
+            if rng.random() < 0.2:
+                c = heap_build(cls, pycls, snap(o), mod._REMOVED)
+                how = rng.randint(0, 3)
+                if how == 0 and c._entry_map:
+                    del c._entry_map[rng.choice(list(c._entry_map))]
+                elif how == 1 and c._entry_map:
+                    rng.choice(list(c._entry_map.values()))[-1] = mod._REMOVED
+                elif how == 2:
+                    import itertools
+                    c._counter = itertools.count(rng.randint(0, 40))
+                elif how == 3:
+                    c._get_priority = PRIO_MENU[2]
+                yield snap(c)
+
+
+def fam_bpq(method):
+    def fam(rng, quick):
+        for st in _bpq_states(rng, quick):
+            for _ in range(2):
+                case = {'self': st}
+                task = rng.choice(list(st['_entry_map']) or BPQ_TASKS) if rng.random() < 0.6 else rng.choice(BPQ_TASKS)
+                if method == 'remove':
+                    case['task'] = task
+                elif method == 'add':
+                    case.update(task=task, priority=rng.randint(-3, 6))
+                elif method == 'cull':
+                    case['raise_exc'] = rng.random() < 0.6
+                elif method in ('peek', 'pop'):
+                    case['default_'] = rng.choice([None, None, 7])
+                yield case
+    return fam
+
+
 FAMILIES = {
+    'BPQ.remove': fam_bpq('remove'),
+    'BPQ.add': fam_bpq('add'),
+    'BPQ.cull': fam_bpq('cull'),
+    'BPQ.peek': fam_bpq('peek'),
+    'BPQ.pop': fam_bpq('pop'),
+    'BPQ.len': fam_bpq('len'),
     'LRI.init_ll': fam_lri('init_ll'),
     'LRI.move_to_front': fam_lri('move_to_front'),
     'LRI.add_to_front': fam_lri('add_to_front'),
@@ -1440,7 +1564,8 @@ def build_driver(pids, repo, snippets=False):
             if spec not in mods[spec['module']]:
                 mods[spec['module']].append(spec)
     heap = any((sp.get('cls') or {}).get('heap') for ss in mods.values() for sp in ss)
-    body = ['import BoltonsVerif.PyHeap' if heap else 'import BoltonsVerif.PyRt', 'set_option linter.all false', '']
+    body = ['import BoltonsVerif.PyHeap\nimport BoltonsVerif.C10.Model' if heap else 'import BoltonsVerif.PyRt',
+            'set_option linter.all false', '']
     fns = []
     for module_name in sorted(mods):
         text, infos = py2lean.translate_module(module_name, mods[module_name], repo)
@@ -1573,7 +1698,7 @@ def run(pids, quick=False, seed=0, verbose=True, snippets=False):
         with open(drv, 'w') as fh:
             fh.write(src)
         with common.BuildLock():
-            rc, out = common._run(['lake', 'build', 'BoltonsVerif.PyRt', 'BoltonsVerif.PyHeap'])
+            rc, out = common._run(['lake', 'build', 'BoltonsVerif.PyRt', 'BoltonsVerif.PyHeap', 'BoltonsVerif.C10.Model'])
         if rc != 0:
             raise common.InfraError('cannot build BoltonsVerif.PyRt: ' + out[-500:])
         t1 = time.time()
@@ -1603,9 +1728,13 @@ def run(pids, quick=False, seed=0, verbose=True, snippets=False):
             hf = spec['cls']['heap'].get('field', 'heap')
             for a, tt in spec['cls']['state'].items():      # callables are not encoded back
                 t = py2lean.parse_type(tt)
-                if t[0] == 'Option' and t[1] is not None and t[1][0] == 'Fun':
+                if (t[0] == 'Option' and t[1] is not None and t[1][0] == 'Fun') or t[0] == 'Fun':
                     want = [w if not (isinstance(w, tuple) and w and w[0] == a) else (a, None) for w in want]
-            got_c = heap_lean_result(spec, rtype, val)
+            if method_mutates(spec):
+                got_c = heap_lean_result(spec, rtype, val)
+            else:                               # a method that changes nothing returns its value only
+                want = want[:1]
+                got_c = [list(('exc', val[1]) if val[0] == 0 else ('ok', dec(rtype, val, 1)[0]))]
             r['compared'] += 1
             if want[0][0] == 'exc':
                 r['python_raises'] += 1
@@ -1881,13 +2010,31 @@ REJECT3 = [
 ]
 
 
+# ... and of the abstract backend / counters / cell unpacking (target B)
+_HBOX2 = {'name': 'H', 'lean_name': 'H', 'tparams': ['κ', 'ν', 'β'], 'deceq': ['κ'], 'inhabited': ['ν'],
+          'heap': {'field': 'heap', 'key': 'κ', 'val': 'ν'}, 'virtual': ['heap'], 'sentinels': ['_MISSING'],
+          'backend': {'attr': '_pq', 'type': 'β', 'push': '_push', 'pop': '_pop'},
+          'state': {'heap': 'Heap', '_pq': 'β', 'n': 'Int', '_c': 'Counter', '_anchor': 'Val'}, 'methods': []}
+_HP2 = {'params': {'k': 'κ', 'v': 'ν'}, 'result': 'None', 'raises': True, 'cls': _HBOX2, 'method': True}
+REJECT3B = [
+    ('an item of the backend other than [0]', 'self._anchor = self._pq[1]'),
+    ('the backend used as a value', 'x = self._pq\n        self._anchor = x[0]'),
+    ('next() inside an expression', 'self.n = next(self._c) + 1'),
+    ('next() of something that is not a declared counter', 'self.n = next(self._pq)'),
+    ('the backend pop inside an expression', 'self._anchor = self._pop(self._pq)[0]'),
+    ('the backend push with another container', 'self._push(self._anchor, self._anchor)'),
+    ('unpacking a cell into a statically typed variable', 'self.n, b = self._anchor'),
+    ('len of the backend', 'self.n = len(self._pq)'),
+]
+
+
 def reject_tests3(verbose=True):
     import ast
     bad = []
-    for name, body in REJECT3:
+    for name, body in REJECT3 + REJECT3B:
         src = 'class H(dict):\n    def m(self, k, v):\n        %s\n' % body
         spec = {'module': 'x', 'qualname': 'H.m', 'lean_name': 'H.m', 'kind': 'function', 'tie_theorem': '-', 'py': 'm'}
-        spec.update(_HP)
+        spec.update(_HP2 if (name, body) in REJECT3B else _HP)
         tree = ast.parse(src)
         try:
             fdef = py2lean._find_function(tree, 'H.m')
@@ -1896,7 +2043,7 @@ def reject_tests3(verbose=True):
         except (py2lean.Unsupported, py2lean._Unknown):
             pass
     if verbose:
-        print('subset boundary (heap mode): %d/%d snippets refused' % (len(REJECT3) - len(bad), len(REJECT3)))
+        print('subset boundary (heap mode): %d/%d snippets refused' % (len(REJECT3 + REJECT3B) - len(bad), len(REJECT3 + REJECT3B)))
         for name, text in bad:
             print('ACCEPTED (should be refused): %s\n%s' % (name, text))
     return len(bad)
